@@ -122,29 +122,27 @@ macro_rules! golit_unsigned {
         }
     };
 }
-/// concrete boundary values (no solver work: everything is constant-folded by CBMC's symbolic execution)
+/// boundary values of every digit length: `v` ranges over a constant table through a symbolic index, so the code is
+/// executed symbolically once and the solver only has to consider the listed values
 macro_rules! golit_edges {
     ($name:ident, $t:ty, $prim:ident, $tast:ident, $goty:ident, $maxlen:literal, $unwind:literal, [$($v:expr),*]) => {
         #[kani::proof]
         #[kani::unwind($unwind)]
         fn $name() {
             let vals: &[$t] = &[$($v),*];
-            let mut longest = 0usize;
-            let mut i = 0usize;
-            while i < vals.len() {
-                let v = vals[i];
-                let e = go_literal_from_primitive(&Prim::$prim { value: v }, &tast::Ty::$tast);
-                let neg = (v as i128) < 0;
-                let mag = (v as i128).unsigned_abs() as u64;
-                let o = check_int(&e, neg, mag, $maxlen);
-                assert!(matches!(expr_ty(&e), Some(goty::GoType::$goty)), "O10.2 literal carries the wrong Go type");
-                if o.len > longest {
-                    longest = o.len;
-                }
-                std::mem::forget(e);
-                i += 1;
-            }
-            kani::cover!(longest == $maxlen, "the longest text of the type was produced");
+            let i: usize = kani::any();
+            kani::assume(i < vals.len());
+            let v = vals[i];
+            let e = go_literal_from_primitive(&Prim::$prim { value: v }, &tast::Ty::$tast);
+            let neg = (v as i128) < 0;
+            let mag = (v as i128).unsigned_abs() as u64;
+            let o = check_int(&e, neg, mag, $maxlen);
+            assert!(matches!(expr_ty(&e), Some(goty::GoType::$goty)), "O10.2 literal carries the wrong Go type");
+            kani::cover!(v == <$t>::MIN, "smallest value of the type");
+            kani::cover!(v == <$t>::MAX, "largest value of the type");
+            kani::cover!(o.len == $maxlen, "the longest text of the type");
+            kani::cover!(i == vals.len() - 1, "last table entry");
+            std::mem::forget(e);
         }
     };
 }
@@ -161,11 +159,17 @@ golit_signed!(golit_i64_b5, i64, Int64, TInt64, TInt64, 100_000u64, 7, 9);
 golit_unsigned!(golit_u32_b5, u32, UInt32, TUint32, TUint32, 100_000u64, 6, 8);
 golit_unsigned!(golit_u64_b5, u64, UInt64, TUint64, TUint64, 100_000u64, 6, 8);
 golit_signed!(golit_i32_b6, i32, Int32, TInt32, TInt32, 1_000_000u64, 8, 10);
+golit_signed!(golit_i64_b6, i64, Int64, TInt64, TInt64, 1_000_000u64, 8, 10);
+golit_unsigned!(golit_u32_b6, u32, UInt32, TUint32, TUint32, 1_000_000u64, 7, 9);
+golit_unsigned!(golit_u64_b6, u64, UInt64, TUint64, TUint64, 1_000_000u64, 7, 9);
 golit_signed!(golit_i32_b7, i32, Int32, TInt32, TInt32, 10_000_000u64, 9, 11);
-golit_edges!(golit_i32_edges, i32, Int32, TInt32, TInt32, 11, 64, [i32::MIN, (-2147483647), (-1000000001), (-1000000000), (-999999999), (-100000001), (-100000000), (-99999999), (-10000001), (-10000000), (-9999999), (-1000001), (-1000000), (-999999), (-100001), (-100000), (-99999), (-10001), (-10000), (-9999), (-1001), (-1000), (-999), (-101), (-100), (-99), (-11), (-10), (-9), (-1), 0, 1, 9, 10, 11, 99, 100, 101, 999, 1000, 1001, 9999, 10000, 10001, 99999, 100000, 100001, 999999, 1000000, 1000001, 9999999, 10000000, 10000001, 99999999, 100000000, 100000001, 999999999, 1000000000, 1000000001, 2147483646, 2147483647]);
-golit_edges!(golit_i64_edges, i64, Int64, TInt64, TInt64, 20, 118, [i64::MIN, (-9223372036854775807), (-1000000000000000001), (-1000000000000000000), (-999999999999999999), (-100000000000000001), (-100000000000000000), (-99999999999999999), (-10000000000000001), (-10000000000000000), (-9999999999999999), (-1000000000000001), (-1000000000000000), (-999999999999999), (-100000000000001), (-100000000000000), (-99999999999999), (-10000000000001), (-10000000000000), (-9999999999999), (-1000000000001), (-1000000000000), (-999999999999), (-100000000001), (-100000000000), (-99999999999), (-10000000001), (-10000000000), (-9999999999), (-1000000001), (-1000000000), (-999999999), (-100000001), (-100000000), (-99999999), (-10000001), (-10000000), (-9999999), (-1000001), (-1000000), (-999999), (-100001), (-100000), (-99999), (-10001), (-10000), (-9999), (-1001), (-1000), (-999), (-101), (-100), (-99), (-11), (-10), (-9), (-1), 0, 1, 9, 10, 11, 99, 100, 101, 999, 1000, 1001, 9999, 10000, 10001, 99999, 100000, 100001, 999999, 1000000, 1000001, 9999999, 10000000, 10000001, 99999999, 100000000, 100000001, 999999999, 1000000000, 1000000001, 9999999999, 10000000000, 10000000001, 99999999999, 100000000000, 100000000001, 999999999999, 1000000000000, 1000000000001, 9999999999999, 10000000000000, 10000000000001, 99999999999999, 100000000000000, 100000000000001, 999999999999999, 1000000000000000, 1000000000000001, 9999999999999999, 10000000000000000, 10000000000000001, 99999999999999999, 100000000000000000, 100000000000000001, 999999999999999999, 1000000000000000000, 1000000000000000001, 9223372036854775806, 9223372036854775807]);
-golit_edges!(golit_u32_edges, u32, UInt32, TUint32, TUint32, 10, 34, [0, 1, 9, 10, 11, 99, 100, 101, 999, 1000, 1001, 9999, 10000, 10001, 99999, 100000, 100001, 999999, 1000000, 1000001, 9999999, 10000000, 10000001, 99999999, 100000000, 100000001, 999999999, 1000000000, 1000000001, 4294967294, 4294967295]);
-golit_edges!(golit_u64_edges, u64, UInt64, TUint64, TUint64, 20, 64, [0, 1, 9, 10, 11, 99, 100, 101, 999, 1000, 1001, 9999, 10000, 10001, 99999, 100000, 100001, 999999, 1000000, 1000001, 9999999, 10000000, 10000001, 99999999, 100000000, 100000001, 999999999, 1000000000, 1000000001, 9999999999, 10000000000, 10000000001, 99999999999, 100000000000, 100000000001, 999999999999, 1000000000000, 1000000000001, 9999999999999, 10000000000000, 10000000000001, 99999999999999, 100000000000000, 100000000000001, 999999999999999, 1000000000000000, 1000000000000001, 9999999999999999, 10000000000000000, 10000000000000001, 99999999999999999, 100000000000000000, 100000000000000001, 999999999999999999, 1000000000000000000, 1000000000000000001, 9999999999999999999, 10000000000000000000, 10000000000000000001, 18446744073709551614, 18446744073709551615]);
+golit_signed!(golit_i64_b7, i64, Int64, TInt64, TInt64, 10_000_000u64, 9, 11);
+golit_unsigned!(golit_u32_b7, u32, UInt32, TUint32, TUint32, 10_000_000u64, 8, 10);
+golit_unsigned!(golit_u64_b7, u64, UInt64, TUint64, TUint64, 10_000_000u64, 8, 10);
+golit_edges!(golit_i32_edges, i32, Int32, TInt32, TInt32, 11, 13, [i32::MIN, (-2147483647), (-1000000001), (-1000000000), (-999999999), (-100000001), (-100000000), (-99999999), (-10000001), (-10000000), (-9999999), (-1000001), (-1000000), (-999999), (-100001), (-100000), (-99999), (-10001), (-10000), (-9999), (-1001), (-1000), (-999), (-101), (-100), (-99), (-11), (-10), (-9), (-1), 0, 1, 9, 10, 11, 99, 100, 101, 999, 1000, 1001, 9999, 10000, 10001, 99999, 100000, 100001, 999999, 1000000, 1000001, 9999999, 10000000, 10000001, 99999999, 100000000, 100000001, 999999999, 1000000000, 1000000001, 2147483646, 2147483647]);
+golit_edges!(golit_i64_edges, i64, Int64, TInt64, TInt64, 20, 22, [i64::MIN, (-9223372036854775807), (-1000000000000000001), (-1000000000000000000), (-999999999999999999), (-100000000000000001), (-100000000000000000), (-99999999999999999), (-10000000000000001), (-10000000000000000), (-9999999999999999), (-1000000000000001), (-1000000000000000), (-999999999999999), (-100000000000001), (-100000000000000), (-99999999999999), (-10000000000001), (-10000000000000), (-9999999999999), (-1000000000001), (-1000000000000), (-999999999999), (-100000000001), (-100000000000), (-99999999999), (-10000000001), (-10000000000), (-9999999999), (-1000000001), (-1000000000), (-999999999), (-100000001), (-100000000), (-99999999), (-10000001), (-10000000), (-9999999), (-1000001), (-1000000), (-999999), (-100001), (-100000), (-99999), (-10001), (-10000), (-9999), (-1001), (-1000), (-999), (-101), (-100), (-99), (-11), (-10), (-9), (-1), 0, 1, 9, 10, 11, 99, 100, 101, 999, 1000, 1001, 9999, 10000, 10001, 99999, 100000, 100001, 999999, 1000000, 1000001, 9999999, 10000000, 10000001, 99999999, 100000000, 100000001, 999999999, 1000000000, 1000000001, 9999999999, 10000000000, 10000000001, 99999999999, 100000000000, 100000000001, 999999999999, 1000000000000, 1000000000001, 9999999999999, 10000000000000, 10000000000001, 99999999999999, 100000000000000, 100000000000001, 999999999999999, 1000000000000000, 1000000000000001, 9999999999999999, 10000000000000000, 10000000000000001, 99999999999999999, 100000000000000000, 100000000000000001, 999999999999999999, 1000000000000000000, 1000000000000000001, 9223372036854775806, 9223372036854775807]);
+golit_edges!(golit_u32_edges, u32, UInt32, TUint32, TUint32, 10, 12, [0, 1, 9, 10, 11, 99, 100, 101, 999, 1000, 1001, 9999, 10000, 10001, 99999, 100000, 100001, 999999, 1000000, 1000001, 9999999, 10000000, 10000001, 99999999, 100000000, 100000001, 999999999, 1000000000, 1000000001, 4294967294, 4294967295]);
+golit_edges!(golit_u64_edges, u64, UInt64, TUint64, TUint64, 20, 22, [0, 1, 9, 10, 11, 99, 100, 101, 999, 1000, 1001, 9999, 10000, 10001, 99999, 100000, 100001, 999999, 1000000, 1000001, 9999999, 10000000, 10000001, 99999999, 100000000, 100000001, 999999999, 1000000000, 1000000001, 9999999999, 10000000000, 10000000001, 99999999999, 100000000000, 100000000001, 999999999999, 1000000000000, 1000000000001, 9999999999999, 10000000000000, 10000000000001, 99999999999999, 100000000000000, 100000000000001, 999999999999999, 1000000000000000, 1000000000000001, 9999999999999999, 10000000000000000, 10000000000000001, 99999999999999999, 100000000000000000, 100000000000000001, 999999999999999999, 1000000000000000000, 1000000000000000001, 9999999999999999999, 10000000000000000000, 10000000000000000001, 18446744073709551614, 18446744073709551615]);
 
 #[kani::proof]
 #[kani::unwind(3)]
